@@ -248,6 +248,37 @@ def clause_e(ctx, P):
                                 ok = True
                                 detail = "RegisterResend pushed on retransmissions at now + 1000 and the same time pushed on the timer heap"
         ctx.ob("C07e.resend-scheduled", f.name, ok, f.loc(), detail)
+        # ... and on EVERY path that sets Announced: the construction of the resend either dominates the status write or lies on
+        # every path that follows it up to the end of the iteration (no "one is already pending" shortcut: the resend is per
+        # interface, and a pending one of another interface announces nothing here)
+        rbs = [b for b, i, s in rs]
+        loops = f.loops()
+        bad = []
+        for sb in sets:
+            if any(f.dominates(rb, sb) for rb in rbs):
+                continue
+            # the resend may also be scheduled by a later loop of the function (one per interface that answered)
+            heads = [h for h, body in loops.items() if sb in body and any(rb in body for rb in rbs)]
+            stop = set(rbs) | {h for h, body in loops.items() if sb not in body and any(rb in body for rb in rbs)}
+            seen, st, esc = {sb}, [sb], False
+            while st and not esc:
+                x = st.pop()
+                if f.term(x)["k"] == "return":
+                    esc = True
+                for s_ in f.succs(x):
+                    if s_ in stop or s_ in seen:
+                        continue
+                    if s_ in heads:
+                        esc = True
+                        continue
+                    seen.add(s_)
+                    st.append(s_)
+            if esc:
+                bad.append(f.loc(sb))
+        ctx.ob("C07e.resend-on-every-announce", f.name, not bad, f.loc(),
+               "every write of ServiceStatus::Announced is accompanied by the construction of Command::RegisterResend" if not bad else
+               "the status is set to Announced at %s on a path that schedules no RegisterResend: the second announcement (RFC 6762 8.3) is "
+               "not sent for that interface" % bad[:2])
     ctx.floor("C07e.resend-scheduled", n, 4, "functions that set ServiceStatus::Announced")
     # the resend handler must find the service: F5 on my_services
     f5.run_f5(ctx, P, {"my_services"}, rule="C07e.F5.key-normalised", floor=5)
